@@ -292,6 +292,15 @@ func (c *fctx) rangeStmt() []*S {
 		pre = append(pre, &S{K: SDecl, ID: c.g.id(), Name: coll, E: &X{K: XCall, Name: "mkm", Args: []*X{lit(n)}}})
 		c.sc.declare(coll, vMap)
 		loop.E = v(coll)
+		if n > 1 && r.Chance(1, 3) {
+			// a variable-free range whose (non-yielding) first round removes every entry that
+			// has not been reached: there is no second round
+			head := []string{"for range %s", "for _ = range %s", "for _, _ = range %s"}[r.Intn(3)]
+			id := c.g.id()
+			text := fmt.Sprintf(head+" {\n\tvrt.E(%d, len(%s))\n\tclear(%s)\n}\nvrt.E(%d, len(%s))", coll, c.g.nextTag(), coll, coll, c.g.nextTag(), coll)
+			c.g.mark("range_map_without_variables_cleared_in_its_first_round")
+			return append(pre, &S{K: SRaw, ID: id, Src: text})
+		}
 		if n > 1 {
 			// Go randomises the order: only order-insensitive bodies (commutative accumulation)
 			c.g.mark("range_map_multi_entry_commutative_body")
